@@ -213,7 +213,15 @@ def gen_c13(tier, rng):
         # representations whose STORED Z limbs are a small integer (Z = j/R: limbs [j,0,0,0] — the integer one, not the field one),
         # [0,1,0,0], or -1: as left and as right operand, with themselves, their negatives, under doubling / multiplication / encoding
         rinv = pow(R, -1, P)
-        for zs in (rinv, 2 * rinv % P, (1 << 64) * rinv % P, P - 1, (P - 1) * rinv % P):
+        from .gens_sm2 import small_order_elements
+        w3 = pow(2, (P - 1) // 3, P)
+        # distinct points with the same y: (x, y), (w x, y), (w^2 x, y) (j = 0 curve); their sum is O
+        for za, zb in ((1, 1), (z1, z2), (z1, 1)):
+            Aw = (w3 * A[0] % P, A[1])
+            yield ('g1-add-same-y-different-x', 'g1 add %s %s' % (S.g1_jac(A, za), S.g1_jac(Aw, zb)), None)
+            yield ('g1-add-same-y-different-x', 'g1 sub %s %s' % (S.g1_jac(A, za), S.g1_jac(S.g1_neg(Aw), zb)), None)
+            yield ('g1-add-same-y-different-x', 'g1 eq %s %s' % (S.g1_jac(A, za), S.g1_jac(Aw, zb)), None)
+        for zs in [rinv, 2 * rinv % P, (1 << 64) * rinv % P, P - 1, (P - 1) * rinv % P] + small_order_elements(P):
             for lhs, rhs in ((S.g1_jac(B, z2), S.g1_jac(A, zs)), (S.g1_jac(A, zs), S.g1_jac(B, z2)), (S.g1_jac(A, zs), S.g1_jac(A, zs)),
                              (S.g1_jac(A, z1), S.g1_jac(A, zs)), (S.g1_jac(A, zs), S.g1_jac(S.g1_neg(A), zs)), (S.g1_jac(A, zs), S.g1_jac(S.g1_neg(A), z1))):
                 yield ('g1-special-stored-Z', 'g1 add %s %s' % (lhs, rhs), None)
@@ -288,7 +296,14 @@ def gen_c13(tier, rng):
         yield ('g2-raw', 'g2_raw add %s %s' % (S.g2_jac(A, z1), S.g2_jac(B, z2)), None)
         # Z in special positions of Fp2: one component exactly one / the integer one in the stored limbs / zero / -1, the other arbitrary
         rinv2 = pow(R, -1, P)
-        for zs in ((1, rng.randrange(1, P)), (rinv2, 0), (rinv2, rng.randrange(1, P)), (0, 1), (0, rinv2), (P - 1, 0), (rng.randrange(1, P), 1), (2 * rinv2 % P, 0)):
+        from .gens_sm2 import small_order_elements
+        soe = small_order_elements(P)
+        # distinct twist points with the same y: (x, y) and (w x, y), w^3 = 1 in Fp
+        Aw = (S.f2scal(w_, A[0]), A[1])
+        for za, zb in ((one, one), (z1, z2), (z1, one)):
+            for opn in ('add', 'addfull', 'sub'):
+                yield ('g2-add-same-y-different-x', 'g2 %s %s %s' % (opn, S.g2_jac(A, za), S.g2_jac(Aw if opn != 'sub' else S.g2_neg(Aw), zb)), None)
+        for zs in [(1, rng.randrange(1, P)), (rinv2, 0), (rinv2, rng.randrange(1, P)), (0, 1), (0, rinv2), (P - 1, 0), (rng.randrange(1, P), 1), (2 * rinv2 % P, 0)] + [(v, 0) for v in soe] + [(0, soe[0])]:
             for lhs, rhs in ((S.g2_jac(B, z2), S.g2_jac(A, zs)), (S.g2_jac(A, zs), S.g2_jac(B, z2)), (S.g2_jac(A, zs), S.g2_jac(A, z1)), (S.g2_jac(A, zs), S.g2_jac(S.g2_neg(A), zs))):
                 yield ('g2-special-stored-Z', 'g2 add %s %s' % (lhs, rhs), None)
                 yield ('g2-special-stored-Z', 'g2 addfull %s %s' % (lhs, rhs), None)
@@ -323,7 +338,9 @@ def gen_c12(tier, rng):
     rinv = pow(R, -1, P)
     for zq in ((0, 1), (0, rng.randrange(1, P)), (rng.randrange(1, P), 0), (P - 1, 0), (0, P - 1),
                # one component exactly 1 (or the integer one in the stored limbs), the other arbitrary: "affine" tests that look at c0 only
-               (1, rng.randrange(1, P)), (1, 1), (rng.randrange(2, P), 1), (rinv, 0), (rinv, rng.randrange(1, P)), (rng.randrange(1, P), rinv), (1, P - 1)):
+               (1, rng.randrange(1, P)), (1, 1), (rng.randrange(2, P), 1), (rinv, 0), (rinv, rng.randrange(1, P)), (rng.randrange(1, P), rinv), (1, P - 1),
+               # Z of small multiplicative order (Z^3 = 1: the cube roots of unity of Fp; Z^4 = 1, Z^6 = 1)
+               (pow(2, (P - 1) // 3, P), 0), (pow(2, 2 * (P - 1) // 3, P), 0), (P - pow(2, (P - 1) // 3, P), 0)):
         yield ('pairing-Q-Z-special', 'pairing %s %s' % (S.g2_jac(B, zq), S.g1_jac(A, 1)), None)
     for zp in (rinv, 2 * rinv % P, P - 1, (1 << 64) * rinv % P):
         yield ('pairing-P-Z-special', 'pairing %s %s' % (S.g2_jac(B, (1, 0)), S.g1_jac(A, zp)), None)
